@@ -4,3 +4,4 @@ import SquidModel.Properties.C06
 #print axioms SquidModel.C06.eof_delivers_all
 #print axioms SquidModel.C06.early_client_bytes_kept
 #print axioms SquidModel.C06.eof_only_after_everything
+#print axioms SquidModel.C06.pending_write_survives_peer_closure
